@@ -205,7 +205,7 @@ def shrink(ctx, comps, ops, sig):
 
 def run(ctx):
     rng = ctx.subrng("c07")
-    n = ctx.budget(300, 4000)
+    n = ctx.budget(900, 4000)
     maxops = 12 if ctx.tier == "quick" else 30
     for i in range(n):
         if ctx.time_left() < 0:
